@@ -25,13 +25,15 @@ import (
 func init() { register("pkg", runPkg) }
 
 type pkgRun struct {
-	doc   *document.Document
-	dir   string
-	table *document.Table
-	para  *document.Paragraph
-	nfn   int // footnotes added through the API on the current document object
-	nen   int
-	cid   int
+	doc       *document.Document
+	dir       string
+	table     *document.Table
+	para      *document.Paragraph
+	nfn       int // footnotes added through the API on the current document object
+	nen       int
+	cid       int
+	lastStyle string // id of the style AddStyle added last
+	inp       []byte // the package the current step handed to the library's open (nil: it opened nothing foreign)
 }
 
 func (r *pkgRun) tbl() *document.Table {
@@ -309,7 +311,7 @@ func (r *pkgRun) step(op Op, i int) (ret string, written []byte, entry string) {
 		return errRet(d.AddFooterWithPageNumber(pkgKindOf(op.Str("kind")), s, i%2 == 1)), nil, ""
 	case "AddFormattedHeader":
 		return errRet(d.AddFormattedHeader(pkgKindOf(op.Str("kind")), &document.HeaderFooterConfig{Text: s,
-			Format: &document.TextFormat{Bold: true, FontFamily: pkgIdent(tc, i+1), FontColor: pkgIdent(tc, i+2), Highlight: pkgIdent(tc, i+3)},
+			Format:    &document.TextFormat{Bold: true, FontFamily: pkgIdent(tc, i+1), FontColor: pkgIdent(tc, i+2), Highlight: pkgIdent(tc, i+3)},
 			Alignment: document.AlignmentType(pkgIdent(tc, i+4))})), nil, ""
 	case "AddFormattedFooter":
 		return errRet(d.AddFormattedFooter(pkgKindOf(op.Str("kind")), &document.HeaderFooterConfig{Text: s,
@@ -360,6 +362,39 @@ func (r *pkgRun) step(op Op, i int) (ret string, written []byte, entry string) {
 				BasedOn: &style.BasedOn{Val: "Normal"}, Next: &style.Next{Val: pkgIdent(tc, i+2)}})
 		}
 		d.AddParagraph("styled").SetStyle(id)
+		r.lastStyle = id
+	case "EditStyle": // a style the manager already holds is edited in place
+		sm := d.GetStyleManager()
+		var st *style.Style
+		cands := []string{"Heading1", "Normal", "Title", "Heading2", "Quote", "Heading3", "Subtitle"}
+		if r.lastStyle != "" {
+			cands = append(cands, r.lastStyle, r.lastStyle)
+		}
+		for k := 0; k < len(cands) && st == nil; k++ {
+			st = sm.GetStyle(cands[(int(seed)+pkgConc+i+k)%len(cands)])
+		}
+		if st == nil {
+			return "skip", nil, "" // the document has none of them
+		}
+		switch op.Str("ed") {
+		case "name":
+			st.Name = &style.StyleName{Val: pkgIdent(tc, i) + " revised " + pkgIdent(tc, i+1)}
+		case "run":
+			st.RunPr = &style.RunProperties{FontFamily: &style.FontFamily{ASCII: pkgIdent(tc, i), EastAsia: pkgIdent(tc, i+1), HAnsi: pkgIdent(tc, i+2)},
+				Bold: &style.Bold{}, Color: &style.Color{Val: pkgIdent(tc, i+3)}, FontSize: &style.FontSize{Val: pkgIdent(tc, i+4)}}
+		case "para":
+			st.ParagraphPr = &style.ParagraphProperties{KeepNext: &style.KeepNext{}, Shading: &style.Shading{Fill: pkgIdent(tc, i), Val: pkgIdent(tc, i+1)},
+				Spacing: &style.Spacing{Before: pkgIdent(tc, i+2), After: "120"}, Justification: &style.Justification{Val: pkgIdent(tc, i+3)},
+				Indentation: &style.Indentation{Left: pkgIdent(tc, i+4)}}
+		case "strip":
+			st.ParagraphPr, st.RunPr, st.Next, st.TablePr = nil, nil, nil, nil
+		case "rebase":
+			st.BasedOn = &style.BasedOn{Val: pkgIdent(tc, i)}
+			st.Next = &style.Next{Val: pkgIdent(tc, i+1)}
+		default: // readd: a new definition under the same id
+			sm.AddStyle(&style.Style{Type: st.Type, StyleID: st.StyleID, CustomStyle: true, Name: &style.StyleName{Val: pkgIdent(tc, i)},
+				BasedOn: &style.BasedOn{Val: "Normal"}, RunPr: &style.RunProperties{Italic: &style.Italic{}, Highlight: &style.Highlight{Val: pkgIdent(tc, i+1)}}})
+		}
 	case "RemoveStyle":
 		d.GetStyleManager().RemoveStyle([...]string{"Heading9", "Quote", "Normal"}[i%3])
 	// ------------------------------------------------------------------ images
@@ -441,9 +476,21 @@ func (r *pkgRun) step(op Op, i int) (ret string, written []byte, entry string) {
 		}
 		var nd *document.Document
 		var err error
-		if op.Str("via") == "legacy" {
+		switch op.Str("via") {
+		case "legacy":
 			nd, err = eng.RenderToDocument("t", data)
-		} else {
+		case "file": // the renderer opens the template itself, from the file the document was saved to
+			f := filepath.Join(r.dir, fmt.Sprintf("t%d.docx", i))
+			if err := d.Save(f); err != nil {
+				return "err-save", nil, ""
+			}
+			tr := document.NewTemplateRenderer()
+			tr.SetLogging(false)
+			if _, err := tr.LoadTemplateFromFile("tf", f); err != nil {
+				return "err-open", nil, ""
+			}
+			nd, err = tr.RenderTemplate("tf", data)
+		default:
 			nd, err = eng.RenderTemplateToDocument("t", data)
 		}
 		if err != nil || nd == nil {
@@ -519,12 +566,34 @@ func (r *pkgRun) step(op Op, i int) (ret string, written []byte, entry string) {
 			return "err", nil, "ToBytes"
 		}
 		return "ok", b, "ToBytes"
-	case "Reopen":
+	case "Reopen": // saved, respelt by the producer in between (class sp), opened
 		var nd *document.Document
+		var b []byte
+		f := filepath.Join(r.dir, fmt.Sprintf("r%d.docx", i))
 		if op.Str("via") == "file" {
-			f := filepath.Join(r.dir, fmt.Sprintf("r%d.docx", i))
 			if err := d.Save(f); err != nil {
 				return "err-save", nil, ""
+			}
+			var err error
+			if b, err = os.ReadFile(f); err != nil {
+				return "err-read", nil, ""
+			}
+		} else {
+			var err error
+			if b, err = d.ToBytes(); err != nil {
+				return "err-save", nil, ""
+			}
+		}
+		rb, err := pkgRespell(b, op.Str("sp"), i)
+		if err != nil {
+			return "skip", nil, "" // what the library saved cannot be respelt (it is judged where it was saved)
+		}
+		if op.Str("sp") != "asis" {
+			r.inp = rb
+		}
+		if op.Str("via") == "file" {
+			if err := os.WriteFile(f, rb, 0o644); err != nil {
+				return "skip", nil, ""
 			}
 			d2, err := document.Open(f)
 			if err != nil {
@@ -532,11 +601,7 @@ func (r *pkgRun) step(op Op, i int) (ret string, written []byte, entry string) {
 			}
 			nd = d2
 		} else {
-			b, err := d.ToBytes()
-			if err != nil {
-				return "err-save", nil, ""
-			}
-			d2, err := document.OpenFromMemory(io.NopCloser(bytes.NewReader(b)))
+			d2, err := document.OpenFromMemory(io.NopCloser(bytes.NewReader(rb)))
 			if err != nil {
 				return "err-open", nil, ""
 			}
@@ -662,6 +727,7 @@ func runPkgPass(c Case, emit Emitter, lazy bool) {
 	for i, op := range c.Steps {
 		var written []byte
 		var entry string
+		r.inp = nil
 		ret, pmsg := guard(func() string {
 			rt, b, e := r.step(op, i)
 			written, entry = b, e
@@ -704,6 +770,11 @@ func runPkgPass(c Case, emit Emitter, lazy bool) {
 		ev["seen"] = seen
 		ev["entry"] = entry
 		ev["pkg"] = pkg
+		if r.inp != nil {
+			ev["inp"] = pkgProject(r.inp)
+		} else {
+			ev["inp"] = pkgEmpty("none")
+		}
 		emit(ev)
 	}
 }
